@@ -268,6 +268,8 @@ func genFacts() {
 		}
 		if ifs, ok := st.(*ast.IfStmt); ok && strings.Contains(kvs.text(ifs.Cond), "OnlyVersions") && ifs.Else != nil {
 			f["historicCond"] = leanStr(kvs.text(ifs.Cond))
+			// the historic path uses the same lookup order unless it assigns its own
+			f["historicLoadsFrom"] = f["openLoadsFrom"]
 			hist, list := false, false
 			for _, b := range ifs.Body.List {
 				if as, ok := b.(*ast.AssignStmt); ok && kvs.text(as.Lhs[0]) == "persists" && okPersistDefs {
@@ -409,7 +411,10 @@ func genFacts() {
 	cut := cu.text(cu.fn("ConnModule.Update").Body)
 	f["connUpdateParsesBeforeAssigning"] = leanBool(strings.Contains(cut, "newDeadline, newWriteTime := c.sc.deadline, c.sc.writeTime") &&
 		strings.Contains(cut, "c.sc.deadline, c.sc.writeTime = newDeadline, newWriteTime if !writeTime.NoChange() { c.sc.txFixedWriteTime = false } c.sc.ResetContext() return nil") &&
-		strings.Count(cut, "return fmt.Errorf(") == 2)
+		strings.Count(cut, "return fmt.Errorf(") == 3 &&
+		// the third refusal: a write_time outside what 64-bit nanoseconds express (F74), before anything is assigned
+		strings.Contains(cut, "if newWriteTime.Before(time.Unix(0, math.MinInt64)) || newWriteTime.After(time.Unix(0, math.MaxInt64)) { return fmt.Errorf(") &&
+		strings.Index(cut, "newWriteTime.After(time.Unix(0, math.MaxInt64))") < strings.Index(cut, "c.sc.deadline, c.sc.writeTime = newDeadline, newWriteTime"))
 	cc := cu.fn("ConnCursor.Column")
 	ccl := stmtsOf(cc.Body)
 	f["connColumnHonoursNoChange"] = leanBool(len(ccl) > 0 && func() bool {
@@ -493,7 +498,10 @@ func genFacts() {
 	f["vacuumKeepsReachable"] = leanBool(keepOK && loopOK && keepFn)
 	ght := kvs.text(gh.Body)
 	f["vacuumKeepsListedCurrent"] = leanBool(strings.Contains(ght, "current, err := s.listRoots(ctx) if err != nil { return nil, nil, fmt.Errorf(\"list roots: %w\", err) } superseded, err := s.listMergedRoots(ctx) if err != nil { return nil, nil, fmt.Errorf(\"list merged roots: %w\", err) } for _, name := range append(current, superseded...) { if _, ok := rootCacheByName[name]; ok { continue }") &&
-		strings.Contains(ght, "kept, err := crdt.Load(ctx, loadConfig, &name, *root) if err != nil { return nil, nil, err } if err := keep(kept.Mast); err != nil { return nil, nil, err } } nodes = make([]string, 0, len(candidateBlocks))"))
+		strings.Contains(ght, "rootCacheByName[name] = root kept, err := crdt.Load(ctx, loadConfig, &name, *root)"))
+	f["vacuumChecksOwnAge"] = leanBool(strings.Contains(ght, "tooNew := false if parentRoot, ok := rootCacheByName[parent]; ok && (parentRoot.Created == nil || !parentRoot.Created.Before(olderThan)) { tooNew = true } for _, childRoot := range children {"))
+	f["vacuumSkipsUnreadableListed"] = leanBool(strings.Contains(ght, "kept, err := crdt.Load(ctx, loadConfig, &name, *root) if err != nil { if isNoSuchKey(err) { continue } return nil, nil, err } if err := keep(kept.Mast); err != nil { if isNoSuchKey(err) { continue } return nil, nil, err } } nodes = make([]string, 0, len(candidateBlocks))"))
+	f["nodeContentChecked"] = leanBool(kvs.text(kvs.fn("persistEncryptor.Load").Body) == "{ value, err := e.Persist.Load(ctx, path) if err != nil { return nil, err } plain, err := e.encryptor.Decrypt(path, value) if err != nil { return nil, err } sum := blake2b.Sum256(plain) if base64.RawURLEncoding.EncodeToString(sum[:]) != path { return nil, fmt.Errorf(\"node %s: content does not match its name\", path) } return plain, nil }")
 	f["vacuumWalksBypassCache"] = leanBool(strings.Contains(ght, "loadConfig := s.crdt.Config loadConfig.NodeCache = nil") && !strings.Contains(ght, "crdt.Load(ctx, s.crdt.Config,") && strings.Count(ght, "crdt.Load(ctx, loadConfig,") == 4)
 	{
 		vcm := vc.text(vc.fn("VirtualTable.Commit").Body)
